@@ -25,7 +25,8 @@ THEOREMS = ['C17_prefix_mono', 'C17_sld_answers_prefix_monotone', 'C17_machine_a
             'C17_engine_no_depth_error_escapes', 'C17_machine_result_is_prefix',
             'C17_machine_complete_when_shallow', 'C17_result_is_prefix', 'C17_complete_when_shallow',
             'C17_no_depth_error_escapes', 'C17_rlimit_restored', 'C17_generator_closed_on_every_branch',
-            'C17_vars_unbound_after', 'C17_result_collected_so_far', 'C17_nested_keeps_rlimit']
+            'C17_vars_unbound_after', 'C17_result_collected_so_far', 'C17_nested_keeps_rlimit',
+            'C17_close_raises_restores', 'C17_close_raises_outcome']
 IMPORTS = ['Lang.Ast', 'Sem.Machine', 'Sem.RunSem', 'Sem.Native', 'Sem.RunNative', 'Engine.Bounded', 'Engine.RunBoundedM', 'Engine.RunBoundedN']
 MODEL_NEEDS_IMPL = True
 CASE_TIMEOUT = 12
